@@ -440,6 +440,9 @@ def _own_module(seed: int, size: int, feats: list[str]):
                     b.add_state_order(b.input_node, nodes[j])
                 if rng.random() < 0.2:
                     b.add_state_order(nodes[i], b.output_node)
+                if rng.random() < 0.25:
+                    # a chain  a -> b -> Output : b has a non-boundary predecessor and only the boundary as successor
+                    b.add_state_order(nodes[j], b.output_node)
             elif k == "cfg" and "cfg" in F and depth < 2:
                 x = pick(I5)
                 c = pick(tys.Bool)
